@@ -127,7 +127,7 @@ def command_class(name):
     return getattr(importlib.import_module("mpilot.libraries.eems." + lib), name)
 
 
-def run_impl(case, copy_inputs=True, strict=False):
+def run_impl(case, copy_inputs=True, strict=False, plain=False):
     """Runs the real `execute`.  Returns a dict:
        {"status": "ok", "result": array, "vis": ..., "producers": [...]} or
        {"status": "err", "kind": "mp"|"raw", "cls": ..., "ref": "cmd"|"none"|"arg:<name>"|"line:<n>"}"""
@@ -142,7 +142,8 @@ def run_impl(case, copy_inputs=True, strict=False):
     copies = {i: (case.inputs[i].copy() if copy_inputs else case.inputs[i]) for i in set(first.values())}
     inputs = [copies[first[id(a)]] for a in case.inputs]
     fuzzy_in = case.cmd in FUZZY_CONSUMERS
-    uniq = {i: Producer(copies[i], "I%d" % i, fuzzy_in) for i in copies}
+    # plain: the producers hand out plain ndarrays (what a plug-in command that knows nothing of masked arrays returns) - only used when nothing is missing
+    uniq = {i: Producer(numpy.array(numpy.ma.getdata(copies[i])) if plain else copies[i], "I%d" % i, fuzzy_in) for i in copies}
     prods = [uniq[first[id(a)]] for a in case.inputs]
     kwargs = dict(case.params)
     if how == "one":
@@ -309,9 +310,15 @@ def run_pipeline(case, producers_first=True, rng=None, whole_run=False, program=
             if fault is not None:
                 # one input cannot be produced at first (fault = (how, which input, through run() or .result)): the evaluation fails with an MPilot error;
                 # then the cause is removed and the SAME program and commands are evaluated again
-                how_, which_, via_run = fault
+                how_, which_, via_run = fault[:3]
                 bad = "I%s%d" % (tag, sorted(copies)[which_ % len(copies)])
-                lib.FAIL[bad] = how_
+                if how_ == "shape":
+                    # the first listed input arrives on another grid (same number of cells): MixedArrayShapes; then that producer is replaced by one with the right grid
+                    bad = names[0]
+                    good_arr = lib.HOLD[bad]
+                    lib.HOLD[bad] = good_arr.reshape(fault[3])
+                else:
+                    lib.FAIL[bad] = how_
                 try:
                     if via_run:
                         p.run()
@@ -324,6 +331,10 @@ def run_pipeline(case, producers_first=True, rng=None, whole_run=False, program=
                     out["fault_outcome"] = "raw:" + type(e).__name__
                 finally:
                     lib.FAIL.clear()
+                if how_ == "shape":
+                    del p.commands[bad]
+                    lib.HOLD[bad] = good_arr
+                    p.add_command(lib.HeldFuzzy if fuzzy_in else lib.HeldData, bad, OrderedDict())
             if producers_first:
                 for i in sorted(copies):
                     p.commands["I%s%d" % (tag, i)].result
@@ -852,7 +863,7 @@ def tile_twin(ctx, c, out, k):
             c.cmd, k, ins[0].size, j, w[j] if w is not None and j < len(w) else None, v[j % m], out6["vis"][1], out["vis"][1]), dict(c.describe(), repeated=k))
 
 
-def run_stream(ctx, model, cases, stream, tol=common.TOL, on_result=None, rerun=True, narrow=True, pipeline=True, layout=True, strict=True, payload=True, tile=True, exact=True, fault=True):
+def run_stream(ctx, model, cases, stream, tol=common.TOL, on_result=None, rerun=True, narrow=True, pipeline=True, layout=True, strict=True, payload=True, tile=True, exact=True, fault=True, plain=True):
     """runs cases on implementation and model, records disagreements; calls on_result(case, out, answer)"""
     outs = []
     kept = []
@@ -923,6 +934,19 @@ def run_stream(ctx, model, cases, stream, tol=common.TOL, on_result=None, rerun=
             if d:
                 ctx.fail("%s: with numpy.seterr(divide='raise', invalid='raise') set by the caller the outcome differs (%s%s)" % (
                     c.cmd, d, "; " + str(out4.get("text"))[:80] if out4["status"] == "err" else ""), c.describe())
+        if plain and out["status"] == "ok" and c.inputs and not any(numpy.ma.getmaskarray(a).any() for a in c.inputs) and out["vis"][3] is not None and None not in out["vis"][3] and ctx.rng.random() < 0.5:
+            # (a result with missing cells although no input cell is missing marks an undefined operation - 0/0 of a constant field's deviation, a zero divisor:
+            # what a plain array holds there instead is outside the comparison)
+            # fields without missing cells handed over as plain ndarrays (a plug-in command's result): the same values come back, as a masked array
+            out6 = run_impl(c, plain=True)
+            ctx.count("plain_ndarray_twins")
+            if out6["status"] == "ok" and out6["vis"][0] == "plain":
+                # (on the pinned tree the arithmetic commands hand a plain array back when all they were given is plain: the values are what is compared)
+                out6 = dict(out6, vis=("masked",) + tuple(out6["vis"][1:]))
+                ctx.count("plain_ndarray_twins_plain_result")
+            d = _same(out, out6)
+            if d:
+                ctx.fail("%s: with its inputs handed over as plain ndarrays (no cell missing) the outcome differs (%s)" % (c.cmd, d), c.describe())
         if payload and out["status"] == "ok" and any(a.dtype.kind == "f" and numpy.ma.getmaskarray(a).any() for a in c.inputs) and ctx.rng.random() < 0.6:
             # what lies beneath a missing cell may be anything, NaN and infinities included (what masked_invalid or a reader leaves behind)
             ins = []
@@ -972,6 +996,14 @@ def run_stream(ctx, model, cases, stream, tol=common.TOL, on_result=None, rerun=
             if fault and out["status"] == "ok" and c.inputs and ctx.rng.random() < 0.3:
                 # a first evaluation that fails because one input cannot be produced (MPilot error or any other), the cause removed, the same objects evaluated again
                 fl = (ctx.rng.choice(["mp", "raw"]), ctx.rng.randrange(8), bool(ctx.rng.random() < 0.5))
+                sh0 = c.inputs[0].shape
+                if len(set(id(a) for a in c.inputs)) > 1 and c.inputs[0].size > 1 and ctx.rng.random() < 0.5:
+                    # another grid with the same number of cells for the first input
+                    other = [(c.inputs[0].size,), (1, c.inputs[0].size), (c.inputs[0].size, 1)] + ([tuple(reversed(sh0))] if len(sh0) > 1 else [])
+                    other = [o for o in other if o != sh0]
+                    if other:
+                        fl = ("shape", 0, fl[2], ctx.rng.choice(other))
+                        ctx.count("fault_then_repair_twins_shape")
                 piped = run_pipeline(c, producers_first=False, whole_run=bool(ctx.rng.random() < 0.5), fault=fl)
                 ctx.count("fault_then_repair_twins")
                 if piped.get("fault_outcome") != "mp":
